@@ -41,6 +41,8 @@ func main() {
 		runC14(*tier, *seed, out)
 	case "C16":
 		runC16(*tier, *seed, out)
+	case "C04", "C05":
+		runQueueCheck(id, *tier, *seed, out)
 	case "C07", "C08":
 		runCollator(id, *tier, *seed, out)
 	case "C10":
